@@ -165,12 +165,18 @@ CLAIMED = {
              "with every key variant, client dry-run, profile generation, transform/recover, mutation attempts) the deep snapshot of the four "
              "settings views is unchanged (config_invariant, by induction), every result equals the result on a fresh configuration "
              "(history_independent), mappings reject item assignment, and no object handed out shares a list with the configuration "
-             "(views_alias_free). The pre-9ab9399 aliasing variant is proved to violate each of these (non-vacuity).",
+             "(views_alias_free). The pre-9ab9399 aliasing variant is proved to violate each of these (non-vacuity). Configurations carrying a "
+             "setting whose pretty function raises have their own small model (Model/C14R.lean: only a returned mapping is cached): a rendered "
+             "view is never cached, every use gives the fresh-configuration result, an error included (raising_never_caches_rendered, "
+             "raising_history_independent, raising_result; the fill-the-slot-first variant is proved history dependent).",
         note="The model abstracts values to interned ids and keeps only the object graph; its faithfulness is checked by replaying random histories "
              "(1-25 ops) on the 7 sample beacons and synthetic TLV configurations against the compiled model, with an independent deepcopy-snapshot / "
              "fresh-configuration / object-identity oracle on every case. settings_tuple is assumed unwritten (snapshot-checked, not modelled). "
-             "Callers that mutate a list they obtained from a view are outside the property.",
-        design="§4 C14",
+             "Callers that mutate a list they obtained from a view are outside the property. Model/C14R.lean is tied to the code by the stream "
+             "`raising` (synthetic configuration + a SETTING_BEACON_GATE value shorter than its bitmap; 2-9 uses) with the same independent "
+             "oracle restricted to what such a configuration still shows; which constructor reads which view first is stated in that model, "
+             "not derived from the source.",
+        design="§4 C14, §11 round 5",
     ),
     "C19": dict(
         text="Lean 4 proof over an executable model of client.py: the beacon id is even and in [0,2^31) or rejected, with the exact rejection set "
